@@ -553,7 +553,7 @@ func (e *env) queryState(rng *rand.Rand, exhaustive bool) {
 }
 
 func body(r *ev.Run) {
-	r.Rule("states = end (after a restart in a quarter of them), one mid-history point and half of the reorganisation points of seeded random histories (forks of any depth, several stale branches, orphan chains, late parents, reorganisations, zero-work headers). Small states (<=12 headers): ALL queries — every hash for header/state, every ordered pair for ancestors, every multiset of size <=3 for common ancestor, every (height,count) window over -1..max+2 x 0..5; large states (up to 120 headers): seeded samples. Oracle = reference model with weakest readings (by-height: subset of stored-in-window and superset of longest-in-window; ancestors: contains every strictly-between header, nothing off the path, no duplicates, endpoints optional, order free; unrelated headers => never 200; common ancestor asserted for lists with minimum height >= 1). Headers-table digest compared around reads. evaluations = states queried; distinct = distinct (endpoint, relation/state class) cells; non-trivial = all.")
+	r.Rule("states = end (after a restart in a quarter of them), one mid-history point and half of the reorganisation points of seeded random histories (forks of any depth, several stale branches, orphan chains, late parents, reorganisations, zero-work headers). Plus long stores (prefix of 800/1500/30 headers, then a reorganisation over 700/520/2050 heights) queried by sample. Small states (<=12 headers): ALL queries — every hash for header/state, every ordered pair for ancestors, every multiset of size <=3 for common ancestor, every (height,count) window over -1..max+2 x 0..5; large states (up to 120 headers): seeded samples. Oracle = reference model with weakest readings (by-height: subset of stored-in-window and superset of longest-in-window; ancestors: contains every strictly-between header, nothing off the path, no duplicates, endpoints optional, order free; unrelated headers => never 200; common ancestor asserted for lists with minimum height >= 1). Headers-table digest compared around reads. evaluations = states queried; distinct = distinct (endpoint, relation/state class) cells; non-trivial = all.")
 	r.Assume("reference model transcribes the statement", "queries whose hash-linked ancestry crosses a parent stored after its child are skipped (stored heights unrelated; statement silent)", "5xx on degenerate arguments are C16's subject, not asserted here")
 	r.Require("ancestors_descendant", 200)
 	r.Require("ancestors_unrelated-equal-height", 20)
@@ -565,6 +565,30 @@ func body(r *ev.Run) {
 		return
 	}
 	defer st.Destroy()
+	// long stores: a reorganisation over hundreds of heights on top of a long prefix; answers span 1000+ headers
+	for i := 0; i < r.Pick(1, 6); i++ {
+		caseID := fmt.Sprintf("long/%d", i)
+		r.Do(caseID, func() {
+			rng := r.Rand(caseID)
+			hist := gen.DeepReorg(rng, rig.Genesis(), []int{800, 1500, 30}[i%3], []int{700, 520, 2050}[i%3])
+			if err := st.Reset(); err != nil {
+				r.Violate("harness|reset", err.Error(), caseID, nil)
+				return
+			}
+			m := mb.NewModel()
+			e := &env{r: r, st: st, m: m, hist: gen.History{}, caseID: caseID} // (history left out of replay details: thousands of headers)
+			for _, h := range hist.Hdrs {
+				si := mb.Step(st, m, h)
+				if si.Res.Panic != nil || si.Res.Code() != mb.WantCode(si.Outcome) {
+					r.Count("histories_cut_short_by_ingest_divergence", 1)
+					return
+				}
+			}
+			e.queryState(rng, false)
+			r.Count("long_stores_queried", 1)
+			r.Case("", false)
+		})
+	}
 	nHist := r.Pick(260, 5000)
 	for i := 0; i < nHist; i++ {
 		caseID := fmt.Sprintf("h/%d", i)
